@@ -152,7 +152,7 @@ impl PositionMarker {
     /// Return the line and position of this marker in the source.
     pub fn source_position(&self) -> (usize, usize) {
         self.templated_file
-            .get_line_pos_of_char_pos(self.templated_slice.start, true)
+            .get_line_pos_of_char_pos(self.source_slice.start, true)
     }
 
     /// Return the line and position of this marker in the source.
